@@ -85,7 +85,41 @@ def prepare(prog):
                                                                                "pipelines_interactive", "pipelines_batch")
     attempt("D", prog, q, "sim_aggregate", isD, inD, ["pipeline_arrivals_by_priority", "pipeline_latencies_by_priority", "ticks_per_second"],
             "(pipelines_all, pipelines_query, pipelines_interactive, pipelines_batch)")
+    try:
+        out["status_fields"] = prepare_status_fields(prog)
+    except KeyError as e:
+        out["status_fields"] = ("lost", str(e))
     return out
+
+
+STATUS_FIELDS = ("pipeline", "arrival_tick", "finish_tick")
+
+
+def prepare_status_fields(prog):
+    """the top-level plain assignments of PipelineRuntimeStatus.__init__ to self.pipeline / self.arrival_tick / self.finish_tick,
+    in order, as a constructor `PipelineRuntimeStatus.fields.__init__(self, pipeline)`.  Dropped: the creation and filling of the
+    operator table and the state counts; the extraction refuses if a dropped statement stores to one of the three fields or
+    rebinds `pipeline` (calls in dropped statements are assumed not to touch these fields)."""
+    from pyvc.extract import register_block, stores_of
+    q = "eudoxia.workload.runtime_status:PipelineRuntimeStatus.__init__"
+    fn = prog.func(q)
+    kept = []
+    for st in fn.body:
+        tgt = None
+        if isinstance(st, ast.Assign) and len(st.targets) == 1:
+            tgt = st.targets[0]
+        elif isinstance(st, ast.AnnAssign) and st.value is not None:
+            tgt = st.target
+        if isinstance(tgt, ast.Attribute) and isinstance(tgt.value, ast.Name) and tgt.value.id == "self" and tgt.attr in STATUS_FIELDS:
+            kept.append(st)
+            continue
+        names, _other = stores_of(st)
+        fields = {x.attr for x in ast.walk(st) if isinstance(x, ast.Attribute) and isinstance(x.ctx, (ast.Store, ast.Del))}
+        if fields & set(STATUS_FIELDS) or "pipeline" in names:
+            raise KeyError(f"{q}: a statement other than a plain top-level assignment writes a tracked field (contract attachment lost)")
+    if not kept:
+        raise KeyError(f"{q}: no assignment to the tracked fields (contract attachment lost)")
+    return register_block(prog, q, "PipelineRuntimeStatus.fields.__init__", kept, ["self", "pipeline"], "None")
 
 
 def declare2(S: Spec):
@@ -113,6 +147,13 @@ def declare2(S: Spec):
              note="assumed summary of the status constructor (a created status belongs to the given pipeline and has no arrival/finish tick yet; "
                   "its operator table is not described here); monitored natively")
         S.fns[f"{MRS_}:PipelineRuntimeStatus.__init__"].trusted = True
+    S.fn(f"{MRS_}:PipelineRuntimeStatus.fields.__init__", owners=["C06"], params={"pipeline": Ref("Pipeline")},
+         requires=[],
+         ensures=[("a-created-status-has-no-ticks-yet", "self.pipeline == old(pipeline) and self.arrival_tick is None and self.finish_tick is None")],
+         modifies=[],
+         note="extracted from PipelineRuntimeStatus.__init__: the top-level assignments to pipeline / arrival_tick / finish_tick; discharges the "
+              "field part of the assumed constructor summary above (what stays assumed: the table-building rest does not write these fields - "
+              "checked syntactically by the extraction - and terminates)")
 
     S.fn(f"{MS}:sim_track_arrivals", owners=["C06"],
          params={"new_pipelines": List(Ref("Pipeline")), "tick_number": INT, "outstanding_pipelines": Dict(STR, Ref("Pipeline")),
